@@ -22,6 +22,14 @@ class Unsupported(Exception):
     pass
 
 
+class ForkNeeded(Exception):
+    """the two branches of an `if` cannot be merged into one value (e.g. byte strings of different length): the caller
+    re-runs the function once per side with the condition decided (run_function_paths)"""
+    def __init__(self, cond, why):
+        Exception.__init__(self, why)
+        self.cond = cond
+
+
 class SBytes(list):
     """bytes value: python list of byte terms (ints or z3 terms)."""
 
@@ -378,6 +386,11 @@ class Interp(object):
                 if not is_z(c):
                     self.block(s.body if c else s.orelse, env)
                     continue
+                dec = self.decided_value(c)
+                if dec is not None:
+                    # this run explores one side only (see run_function_paths); the condition is part of its path
+                    self.block(s.body if dec else s.orelse, env)
+                    continue
                 has_ret = any(isinstance(x, (ast.Return, ast.Raise)) for b in (s.body, s.orelse) for x in ast.walk(ast.Module(body=b, type_ignores=[])))
                 rest = stmts[i + 1:] if has_ret else []
                 ea, eb = self.fork_env(env), self.fork_env(env)
@@ -394,17 +407,28 @@ class Interp(object):
                 except _Return as r:
                     rb = r
                 self.path.pop()
-                if has_ret:
-                    if ra is None or rb is None:
-                        raise Unsupported("branch falls off without return")
-                    raise _Return(self.merge(c, ra.value, rb.value))
-                for k in set(ea) | set(eb):
-                    if k in ea and k in eb:
-                        env[k] = self.merge(c, ea[k], eb[k])
-                    else:
-                        env[k] = ea.get(k, eb.get(k))
+                try:
+                    if has_ret:
+                        if ra is None or rb is None:
+                            raise Unsupported("branch falls off without return")
+                        raise _Return(self.merge(c, ra.value, rb.value))
+                    for k in set(ea) | set(eb):
+                        if k in ea and k in eb:
+                            env[k] = self.merge(c, ea[k], eb[k])
+                        else:
+                            env[k] = ea.get(k, eb.get(k))
+                except Unsupported as e:
+                    if "different length" in str(e) and not self.path:
+                        raise ForkNeeded(c, str(e))
+                    raise
                 continue
             self.stmt(s, env)
+
+    def decided_value(self, c):
+        for d, val in getattr(self, "decided", ()):
+            if z3.eq(z3.simplify(d), z3.simplify(c)):
+                return val
+        return None
 
     def fork_env(self, env):
         out = {}
@@ -468,6 +492,38 @@ def run_function(fn, args, mode="bv", width=32, extra_globals=None):
     except _Return as r:
         res = r.value
     return res, it
+
+
+def run_function_paths(fn, args, mode="bv", width=32, extra_globals=None, max_paths=64):
+    """like run_function, but an `if` whose sides cannot be merged splits the analysis: returns a list of
+    (path condition terms, result, interp), one per explored side combination"""
+    node = fn_ast(fn)
+    g = dict(getattr(fn, "__globals__", {}))
+    if extra_globals:
+        g.update(extra_globals)
+    names = [a.arg for a in node.args.args]
+    work, out = [[]], []
+    while work:
+        decided = work.pop()
+        if len(out) + len(work) > max_paths:
+            raise Unsupported("more than %d unmergeable paths" % max_paths)
+        it = Interp(mode, width, g)
+        it.decided = decided
+        env = {}
+        for nme, val in zip(names, args):
+            env[nme] = list(val) if isinstance(val, list) and not isinstance(val, SBytes) else (SBytes(val) if isinstance(val, SBytes) else val)
+        try:
+            try:
+                it.block(node.body, env)
+                res = None
+            except _Return as r:
+                res = r.value
+        except ForkNeeded as f:
+            work.append(decided + [(f.cond, True)])
+            work.append(decided + [(f.cond, False)])
+            continue
+        out.append(([c if v else z3.Not(c) for c, v in decided], res, it))
+    return out
 
 
 def run_loop_body(fn, env, mode="bv", width=32, nth=0):
